@@ -3,6 +3,7 @@ package main
 // Engine "rapidp": C18 - rapidproto generators always yield valid, well-formed messages.
 
 import (
+	"bytes"
 	"flag"
 	"fmt"
 	cosmos_proto "github.com/cosmos/cosmos-proto"
@@ -271,6 +272,8 @@ func engineRapidp(rep *Report) {
 					gen := rapidproto.MessageGenerator[proto.Message](dynamicpb.NewMessage(d), gopts)
 					draw = func(seed int) proto.Message { return gen.Example(seed) }
 				}
+				var prev proto.Message
+				var prevBytes []byte
 				for i := 0; i < n; i++ {
 					ci := (oi*2+variant)*n + i
 					if only >= 0 && ci != only {
@@ -317,6 +320,21 @@ func engineRapidp(rep *Report) {
 					if err != nil {
 						rep.Violate("C18", "rapidp/reference-marshal-rejects", tn, err.Error(), rc)
 						continue
+					}
+					// a message yielded earlier by the same generator stays what it was
+					if prev != nil {
+						if prev == m {
+							rep.Violate("C18", "rapidp/draws-share-a-message", tn, "two draws from one generator returned the same message object", rc)
+						} else if pb, e := detOpts.Marshal(prev); e != nil || !bytes.Equal(pb, prevBytes) {
+							rep.Violate("C18", "rapidp/draws-share-a-message", tn, "the message yielded by the previous draw changed when the next one was drawn", rc)
+						}
+						rep.Count("C18", "earlier-draw-unchanged-checks", 1)
+					}
+					prev, prevBytes = m, nil
+					if pb, e := detOpts.Marshal(m); e == nil {
+						prevBytes = pb
+					} else {
+						prev = nil
 					}
 					back := dynamicpb.NewMessage(d)
 					if err := proto.Unmarshal(rb, back); err != nil || !proto.Equal(back, ref) {
